@@ -112,6 +112,7 @@ func (w *World) genFunc(ctr *FuncContract) (rep *FuncReport) {
 	e.rootEntry = entry.clone()
 	e.rootBinders = map[string]Val{}
 	e.loopVisited = map[int]string{}
+	e.loopIters = map[int]string{}
 	env := e.contractEnv(fn, ctr, args, nil, entry, entry)
 	// free variables by their own names
 	for i, fv := range fn.FreeVars {
@@ -126,6 +127,9 @@ func (w *World) genFunc(ctr *FuncContract) (rep *FuncReport) {
 			return rep
 		}
 		e.assume(t, "precondition")
+		if cl.Assumed {
+			e.assumes["assumed-precondition of "+ctr.Name+": "+cl.Text] = true
+		}
 		reqs = append(reqs, t)
 	}
 	for _, gi := range e.allGlobalInvs(entry, entry) {
